@@ -23,6 +23,19 @@ RoundOK(ln) ==
     /\ Chk("error reported by the round", ln.err = ExpectedErr(c))
     /\ UNCHANGED L
 
+StaticOK(ln) ==
+    LET s == ln.c IN
+    /\ Chk("static pool: node calls", ToSet(ln.node) = StaticExpectedNode(s) /\ Len(ln.node) = Cardinality(StaticExpectedNode(s)))
+    /\ Chk("static pool: one keep-alive, then a peer request for exactly the shortfall", ln.pool = StaticExpectedPool(s))
+    /\ Chk("static pool: a round never fails", ~ln.err)
+    /\ UNCHANGED L
+
+\* starting against a static pool: one registration, one keep-alive (no peers yet, no target yet), nothing done to the node
+StaticStartOK(ln) ==
+    /\ Chk("static pool start: pool calls", ln.pool = <<"connect", "update:0">>)
+    /\ Chk("static pool start: node untouched", ln.node = <<>>)
+    /\ UNCHANGED L
+
 Obs(ln, T) ==
     /\ Chk("number of keep-alives sent", ln.updates = T.updates)
     /\ Chk("number of registrations at the pool", ln.connects = T.connects)
@@ -79,6 +92,8 @@ TNext == /\ l <= Len(Trace)
          /\ LET ln == Trace[l] IN
             IF "ev" \in DOMAIN ln /\ ln.ev = "round" THEN RoundOK(ln)
             ELSE IF "ev" \in DOMAIN ln /\ ln.ev = "cli" THEN CliOK(ln)
+            ELSE IF "ev" \in DOMAIN ln /\ ln.ev = "static" THEN StaticOK(ln)
+            ELSE IF "ev" \in DOMAIN ln /\ ln.ev = "static-start" THEN StaticStartOK(ln)
             ELSE LifeStep(ln)
          /\ l' = l + 1
 TSpec == TInit /\ [][TNext]_tvars
@@ -89,6 +104,8 @@ TInv == L.loops >= 0
 Rounds == {i \in DOMAIN Trace : "ev" \in DOMAIN Trace[i] /\ Trace[i].ev = "round"}
 Covered == {[strict |-> Trace[i].c.strict, kind |-> Trace[i].c.kind, local |-> Trace[i].c.local,
              active |-> Trace[i].c.active, invalid |-> Trace[i].c.invalid] : i \in Rounds}
-Complete == Rounds = {} \/ FullCases \subseteq Covered
+Statics == {i \in DOMAIN Trace : "ev" \in DOMAIN Trace[i] /\ Trace[i].ev = "static"}
+StaticCovered == {[strict |-> Trace[i].c.strict, static |-> Trace[i].c.static, local |-> Trace[i].c.local] : i \in Statics}
+Complete == Rounds = {} \/ (FullCases \subseteq Covered /\ StaticCases \subseteq StaticCovered)
 Accepted == TLCGet("stats").diameter - 1 = Len(Trace) /\ Complete
 =============================================================================
